@@ -162,9 +162,18 @@ class FieldData:
       The deleted value or None, if the field was not defined.
     """
     if tagname in self.tagnames:
+      renaming_connected = self._gfa and \
+          self.__class__.STORAGE_KEY == "name" and \
+          tagname == self.__class__.NAME_FIELD
+      if renaming_connected:
+        # the tag is the identifier of the line (ID of L/C lines)
+        self._gfa._unregister_line(self)
       if tagname in self._datatype:
         self._datatype.pop(tagname)
-      return self._data.pop(tagname)
+      value = self._data.pop(tagname)
+      if renaming_connected:
+        self._gfa._register_line(self)
+      return value
     else:
       return None
 
